@@ -11,7 +11,7 @@ import (
 // S8: calls: arity 0-3, recursion, function values, closures (non-capturing), early returns,
 // functions as arguments and results.
 
-var valKinds = []string{"if", "if-elseif", "match", "match-multi", "block", "try-ok", "try-throw", "nested-if-in-match", "block-with-let", "if-no-else-stmt", "match-str", "match-bool", "try-in-try"}
+var valKinds = []string{"if", "if-elseif", "match", "match-multi", "block", "try-ok", "try-throw", "nested-if-in-match", "block-with-let", "if-no-else-stmt", "match-str", "match-bool", "try-in-try", "if-whose-else-throws", "if-whose-then-throws", "match-whose-default-throws", "if-elseif-whose-last-else-throws"}
 var valPositions = []string{"let", "argument", "operand-left", "operand-right", "tail", "return", "assign", "index", "list-elem", "obj-field", "condition", "method-receiver"}
 
 func valCount() int { return len(valKinds) * len(valPositions) * 3 }
@@ -42,6 +42,15 @@ func valExpr(kind string, sel int) (hs.Expr, bool) {
 	case "try-in-try":
 		inner := &hs.Try{Body: hs.Blk(hs.I(10), hs.ES(&hs.If{Cond: hs.Bin("==", hs.V("sel"), hs.I(1)), Then: hs.Blk(nil, hs.ES(hs.CallN("throw", hs.S("in"))))})), Var: "e", Catch: hs.Blk(hs.I(20), hs.ES(&hs.If{Cond: hs.Bin("==", hs.V("sel"), hs.I(1)), Then: hs.Blk(nil, hs.ES(hs.CallN("throw", hs.S("again"))))}))}
 		return &hs.Try{Body: hs.Blk(inner, hs.ES(&hs.If{Cond: hs.Bin("==", hs.V("sel"), hs.I(2)), Then: hs.Blk(nil, hs.ES(hs.CallN("throw", hs.S("out"))))})), Var: "e2", Catch: hs.Blk(hs.Bin("+", hs.I(30), hs.MCall(hs.Mem(hs.V("e2"), "message"), "len")))}, true
+	case "if-whose-else-throws":
+		// one branch yields the value, the other leaves: the expression has the type of the value
+		return &hs.If{Cond: hs.Bin("<", hs.V("sel"), hs.I(2)), Then: hs.Blk(hs.Bin("+", hs.V("sel"), hs.I(10))), Else: hs.Blk(nil, hs.ES(hs.CallN("throw", hs.S("left"))))}, true
+	case "if-whose-then-throws":
+		return &hs.If{Cond: hs.Bin(">=", hs.V("sel"), hs.I(2)), Then: hs.Blk(nil, hs.ES(hs.CallN("throw", hs.S("left")))), Else: hs.Blk(hs.Bin("+", hs.V("sel"), hs.I(10)))}, true
+	case "match-whose-default-throws":
+		return &hs.Match{X: hs.V("sel"), Arms: []hs.MatchArm{{Lits: []hs.Expr{hs.I(0)}, Body: hs.I(10)}, {Lits: []hs.Expr{hs.I(1)}, Body: hs.I(20)}, {Body: &hs.BlockExpr{B: hs.Blk(nil, hs.ES(hs.CallN("throw", hs.S("left"))))}}}}, true
+	case "if-elseif-whose-last-else-throws":
+		return &hs.If{Cond: c, Then: hs.Blk(hs.I(10)), ElIf: &hs.If{Cond: hs.Bin("==", hs.V("sel"), hs.I(1)), Then: hs.Blk(hs.I(20)), Else: hs.Blk(nil, hs.ES(hs.CallN("throw", hs.S("left"))))}}, true
 	case "nested-if-in-match":
 		return &hs.Match{X: hs.V("sel"), Arms: []hs.MatchArm{{Lits: []hs.Expr{hs.I(0)}, Body: &hs.If{Cond: c, Then: hs.Blk(hs.I(10)), Else: hs.Blk(hs.I(11))}}, {Body: &hs.If{Cond: hs.Bin("==", hs.V("sel"), hs.I(1)), Then: hs.Blk(hs.I(20)), Else: hs.Blk(hs.I(30))}}}}, true
 	case "if-no-else-stmt":
@@ -244,6 +253,18 @@ func init() {
 				hs.Println(hs.CallN("fill", hs.I(1))), hs.Println(hs.CallN("fill", hs.I(2))),
 				hs.Println(hs.CallN("grow", hs.I(1))), hs.Println(hs.CallN("grow", hs.I(2))),
 				hs.Println(hs.CallN("bump", hs.I(1))), hs.Println(hs.CallN("bump", hs.I(2))), loop)
+		}},
+		callCase{"value-or-leave-by-return-continue-break", func() *hs.Program {
+			// the value of an `if` whose other branch leaves the function or the iteration
+			half := hs.Fn("half", hs.TInt, hs.Blk(hs.Bin("+", hs.V("w"), hs.V("v")),
+				hs.LetS("v", &hs.If{Cond: hs.Bin(">", hs.V("n"), hs.I(0)), Then: hs.Blk(hs.V("n")), Else: hs.Blk(nil, &hs.Return{X: hs.I(0)})}),
+				hs.LetT("w", hs.TInt, hs.Bin("/", hs.V("v"), hs.I(2)))), intP("n"))
+			loop := &hs.For{Var: "i", Iter: &hs.RangeLit{From: hs.I(0), To: hs.I(7)}, Body: hs.Blk(nil,
+				hs.LetS("k", &hs.If{Cond: hs.Bin("==", hs.Bin("%", hs.V("i"), hs.I(2)), hs.I(0)), Then: hs.Blk(hs.V("i")), Else: hs.Blk(nil, &hs.Continue{})}),
+				hs.LetS("m", &hs.If{Cond: hs.Bin(">", hs.V("i"), hs.I(4)), Then: hs.Blk(nil, &hs.Break{}), Else: hs.Blk(hs.Bin("*", hs.V("k"), hs.I(10)))}),
+				hs.ES(hs.Asg("+=", hs.V("total"), hs.V("k"))), hs.ES(hs.Asg("+=", hs.V("total"), hs.V("m"))),
+				hs.Println(hs.V("i"), hs.V("k"), hs.V("m"), hs.V("total")))}
+			return mainOnly([]*hs.Func{half}, hs.LetS("total", hs.I(0)), loop, hs.Println(hs.CallN("half", hs.I(8)), hs.CallN("half", hs.I(-1)), hs.V("total")))
 		}},
 		callCase{"null-function-as-statement-and-value", func() *hs.Program {
 			f := hs.Fn("side", nil, hs.Blk(nil, hs.Println(hs.S("side"), hs.V("a"))), intP("a"))
